@@ -41,11 +41,12 @@ type c10Case struct {
 	R     string `json:"r_hex,omitempty"` // replacement
 	M     string `json:"m,omitempty"`     // numeric argument as spelled for -v (strconv 'g' shortest, +inf, -inf, nan)
 	N     string `json:"n,omitempty"`
+	T     string `json:"t,omitempty"` // splitx / subx / matchx: the program template "pre|scope|form" resp. "target|alias" (outparam.go)
 	tree  *rx    // the generated regex tree, when there is one
 }
 
 func (k c10Case) key() string {
-	return fmt.Sprintf("%s|%v|%s|%s|%s|%s|%s", k.Op, k.Chars, k.S, k.A, k.R, k.M, k.N)
+	return fmt.Sprintf("%s|%v|%s|%s|%s|%s|%s|%s", k.Op, k.Chars, k.S, k.A, k.R, k.M, k.N, k.T)
 }
 
 var c10Progs = map[string]string{
@@ -110,6 +111,9 @@ func leanNum(x float64) string {
 }
 
 func c10Run(k c10Case) ([]string, vh.RunResult) {
+	if k.Op == "splitx" || k.Op == "subx" || k.Op == "matchx" {
+		return c10RunX(k)
+	}
 	prog := vh.MustParse(c10Progs[k.Op])
 	vars := []string{"s", string(vh.Unhx(k.S))}
 	switch k.Op {
@@ -304,7 +308,7 @@ func c10Oracle(c *vh.Ctx, k c10Case, o c10Out, replay interface{}) {
 	a := vh.Unhx(k.A)
 	u := unitsOf(s, k.Chars)
 	if o.res.Err != "" {
-		if (k.Op == "match" || k.Op == "sub" || k.Op == "rsplit" || k.Op == "tilde") && goRegex(a) == nil {
+		if (k.Op == "match" || k.Op == "sub" || k.Op == "rsplit" || k.Op == "tilde" || k.Op == "subx" || k.Op == "matchx") && goRegex(a) == nil {
 			return // invalid regex: an error is the right answer
 		}
 		fail("unexpected error "+o.res.Err, "", "")
@@ -350,7 +354,9 @@ func c10Oracle(c *vh.Ctx, k c10Case, o c10Out, replay interface{}) {
 		if f[2] != strconv.Itoa(len(tu)) {
 			fail("length(t)", f[2], strconv.Itoa(len(tu)))
 		}
-	case "match":
+	case "splitx":
+		c10OracleSplitx(c, k, o, fail)
+	case "match", "matchx":
 		re := goRegex(a)
 		if re == nil {
 			fail("regex rejected by Go's regexp but accepted by the interpreter", "", "")
@@ -394,7 +400,7 @@ func c10Oracle(c *vh.Ctx, k c10Case, o c10Out, replay interface{}) {
 		if f[0] != want {
 			fail("s ~ r is not 'r matches somewhere in s'", f[0], want)
 		}
-	case "sub":
+	case "sub", "subx":
 		re := goRegex(a)
 		if re == nil {
 			fail("regex rejected by Go's regexp but accepted by the interpreter", "", "")
@@ -491,7 +497,9 @@ func c10LeanReqs(k c10Case) []string {
 		return []string{"int " + leanNum(unspell(k.M))}
 	case "index":
 		return []string{fmt.Sprintf("index %s %s %s", ch, k.S, k.A), fmt.Sprintf("length %s %s", ch, k.A)}
-	case "match":
+	case "splitx":
+		return c10LeanReqsSplitx(k)
+	case "match", "matchx":
 		re := goRegex(a)
 		if re == nil {
 			return nil
@@ -505,7 +513,7 @@ func c10LeanReqs(k c10Case) []string {
 			return []string{fmt.Sprintf("match %s %s %s", ch, k.S, l)}
 		}
 		return []string{fmt.Sprintf("match %s %s %s", ch, k.S, l), fmt.Sprintf("laws %s %s", k.S, l)}
-	case "sub":
+	case "sub", "subx":
 		re := goRegex(a)
 		if re == nil {
 			return nil
@@ -572,9 +580,11 @@ func c10LeanWant(k c10Case, o c10Out) []string {
 		return []string{r.Num().String() + "/" + r.Denom().String()}
 	case "index":
 		return []string{f[0], f[2]}
-	case "match":
+	case "splitx":
+		return c10LeanWantSplitx(k, o)
+	case "match", "matchx":
 		return []string{f[1] + " " + f[2] + " ok " + vh.HxS(f[3]), "wf=1 aligned=1"}
-	case "sub":
+	case "sub", "subx":
 		return []string{f[0] + " " + vh.HxS(f[1]), f[2] + " " + vh.HxS(f[3]), f[4] + " " + vh.HxS(f[5]), "wf=1 aligned=1"}
 	case "case":
 		return []string{vh.HxS(f[0]), vh.HxS(f[1])}
@@ -1096,6 +1106,9 @@ func runC10(c *vh.Ctx) {
 			}
 			add(c10Case{Op: "case", S: vh.Hx(t)})
 		}
+		for _, k := range c10OutParamCases(c, g) { // targets that already hold state (outparam.go)
+			add(k)
+		}
 		for i := 0; i < c.N(60, 1500); i++ { // long subjects: the loops run many times, offsets exceed one byte
 			s := g.subject(i%3, 200)
 			L := len(unitsOf(s, true))
@@ -1162,7 +1175,7 @@ func runC10(c *vh.Ctx) {
 			if isASCII(s, vh.Unhx(k.A), vh.Unhx(k.R)) {
 				c.Hit("ascii-pair")
 				p := outs[i-1]
-				if p.res.Out != o.res.Out || p.res.Err != o.res.Err || p.res.Panic != o.res.Panic {
+				if c10Canon(k, p) != c10Canon(k, o) || p.res.Err != o.res.Err || p.res.Panic != o.res.Panic {
 					c.Fail(vh.Failure{Kind: "oracle", What: k.Op + ": byte mode and character mode differ on ASCII text", Case: k, Got: o.res.String(), Want: p.res.String()})
 				}
 			}
@@ -1257,7 +1270,9 @@ func c10NonTrivial(c *vh.Ctx, k c10Case, o c10Out) bool {
 			c.Hit("index:absent")
 		}
 		return (o.f[0] != "0" && o.f[0] != "1") || !isASCII(s, vh.Unhx(k.A))
-	case "match", "sub", "tilde":
+	case "splitx":
+		return o.f[0] != "0" && o.f[0] != "1"
+	case "match", "sub", "tilde", "subx", "matchx":
 		re := goRegex(vh.Unhx(k.A))
 		if re == nil {
 			return false
